@@ -165,11 +165,6 @@ def shard(idx, n, seed, tier, params):
         for pr in nesting_pairs(p0):
             acc.cover("nesting_pairs", pr)
         tag = "+".join(sorted(kinds))
-        if o1[0] == "diags" and all(nonconvergence(m, f1) for m in o1[1]):
-            # the assembler gives up when the same symbols change in two consecutive passes, also while still converging: a
-            # false rejection of a valid program, but not a difference in meaning
-            acc.count("expansion.rejected-by-nonconvergence")
-            continue
         if o1[0] != "ok":
             acc.violation("expansion-rejected|%s|%s" % (tag, str(o1[1])[:40].split("$")[0]), "P assembles, expand(P) [%s] does not: %s" % (tag, o1[1]),
                           {"kinds": kinds, "P": f0, "expanded": f1, "base_pc": p0.base_pc, "seed": pseed})
